@@ -480,16 +480,15 @@ Definition ident_served (a b : ident) : bool :=
   | _, _ => ident_equiv a b
   end.
 
-(** remainders are compared as segment sequences: runs of '/' collapsed, leading '/' dropped *)
-Fixpoint collapse (prev_slash : bool) (s : string) : string :=
+(** remainders: the redirect's DECODED path remainder must equal the request's decoded
+    remainder character for character — literal '%', empty inner segments, '.' / '..'
+    segments and a trailing '/' included.  Only slashes at the very start are not
+    compared (u.Path = rest of "/ns/root//x" is "/x": URL.String adds no second '/'). *)
+Fixpoint norm_rest (s : string) : string :=
   match s with
   | EmptyString => EmptyString
-  | String a r =>
-      if Ascii.eqb a slash
-      then (if prev_slash then collapse true r else String a (collapse true r))
-      else String a (collapse false r)
+  | String a r => if Ascii.eqb a slash then norm_rest r else s
   end.
-Definition norm_rest (s : string) : string := collapse true s.
 
 (** what the first request of a chain is meant to name (given by the generator,
     which assembled the request from these parts) *)
